@@ -17,6 +17,37 @@ def r1(c):
     for fn_, variant in (('add_entry', 'Vacant'), ('update_entry', 'Occupied')):
         b = P.fn(DB + fn_)
         c.saw(b, len(b.calls()))
+        gm = [cs for cs in b.calls() if cs.callee.endswith('HashMap::get_mut')]
+        if fn_ == 'update_entry' and len(gm) == 1 and not [cs for cs in b.calls() if cs.callee.endswith('HashMap::entry')]:
+            # the other way to write "only if present": `if let Some(slot) = map.get_mut(&index) { *slot = value; true } else { false }`
+            # (also as `.map(|slot| ..).unwrap_or(false)`, which the view writes out)
+            g = gm[0]
+            c.ob('%s/entry-of-index' % fn_, q.is_name(b, g.args[0], 'map') and 'index' in q.closure_names(b, g.args[1]), '%s looks up map.get_mut(&index)' % fn_, '', g.loc())
+            oc = q.outcomes(b, g)
+            some, none = oc.get('Some', []), oc.get('None', [])
+            def through_slot(pl):
+                if 'deref' not in pl['p']:
+                    return False
+                s_ = q.sem(b, {'l': pl['l'], 'p': []})
+                return s_.kind == 'call' and s_.cs is g and q.has_success(s_.proj)
+            stores = [(i, s_) for i, s_ in b.assigns() if through_slot(s_['pl'])]
+            oks = len(stores) == 1 and q.dominated_by_any(b, some, ('b', stores[0][0])) and stores[0][1]['rv']['r'] == 'use' and q.is_name(b, stores[0][1]['rv']['a'][0], 'value')
+            c.ob('%s/only-occupied' % fn_, oks, '%s writes the value only through the slot get_mut found (Some edge)' % fn_, '%d stores' % len(stores), loc_of(b))
+            mutators = [cs for cs in b.calls() if cs.callee.startswith('std::collections::hash::map::HashMap::') and cs.callee.rsplit('::', 1)[-1] in ('insert', 'remove', 'clear', 'retain', 'drain', 'extend', 'entry')]
+            c.ob('%s/no-direct-mutation' % fn_, not mutators, '%s never mutates the map directly (HashMap::insert would create or overwrite regardless of presence)' % fn_, str([x.callee for x in mutators]), loc_of(b))
+            xs = q.exits(b)
+            def cval(x):
+                if x['kind'] == 'const':
+                    return x['op'].get('val')
+                if x['kind'] == 'copy':
+                    v = q.const_val(b, x['op'])
+                    return None if v is None else str(v)
+                return None
+            tr = [x for x in xs if cval(x) in ('1', 'true')]
+            fa = [x for x in xs if cval(x) in ('0', 'false')]
+            okr = bool(tr) and bool(fa) and len(tr) + len(fa) == len(xs) and all(q.dominated_by_any(b, some, x['node']) for x in tr) and all(q.dominated_by_any(b, none, x['node']) for x in fa)
+            c.ob('%s/result' % fn_, okr, '%s returns true exactly on that edge, false otherwise' % fn_, str([(x['kind'], cval(x)) for x in xs]), loc_of(b))
+            continue
         en = one([cs for cs in b.calls() if cs.callee.endswith('HashMap::entry')], 'map.entry')
         c.ob('%s/entry-of-index' % fn_, q.is_name(b, en.args[0], 'map') and q.is_name(b, en.args[1], 'index'), '%s looks up map.entry(index)' % fn_, '', en.loc())
         edges = [e for e, v, info in b.variant_edges() if info['adt'].endswith('::Entry') and v == variant and q.sem(b, info['place']).kind == 'call' and q.sem(b, info['place']).cs is en]
